@@ -172,7 +172,7 @@ fn insert_probe(t: &mut Tape, d: &mut Doc) -> bool {
 pub const STAGES: &[Stage] = &[Stage { name: "roundtrip", f: stage_main }, Stage { name: "roundtrip_huge", f: stage_huge }];
 
 pub fn run(rc: &mut RunCtx) {
-    rc.run_pt(STAGES[0], rc.pick(160_000, 3_000_000), (96, 640));
+    rc.run_pt(STAGES[0], rc.pick(640_000, 3_000_000), (96, 640));
     if !rc.quick() {
         rc.run_pt(STAGES[1], 1_500, (96, 400));
     }
